@@ -450,6 +450,33 @@ def fmt7(ctx: Ctx) -> None:
                 conj += [norm(v_) for v_ in gx.values]
             elif pol:
                 conj.append(norm(gx))
+        # `todo = self.contexts if opts.show_contexts else ()` (either way round) and a loop over it
+        via = [a_ for a_ in walk_scope(fr) if isinstance(a_, ast.Assign) and len(a_.targets) == 1 and isinstance(a_.targets[0], ast.Name) and norm(lp.iter) == a_.targets[0].id and isinstance(a_.value, ast.IfExp)]
+        if len(via) == 1 and sum(1 for w_ in walk_scope(fr) if isinstance(w_, ast.Name) and w_.id == via[0].targets[0].id and isinstance(w_.ctx, ast.Store)) == 1:
+            ie = via[0].value
+            empty = lambda e_: (isinstance(e_, (ast.Tuple, ast.List)) and not e_.elts)
+            on_, off_ = (ie.body, ie.orelse) if norm(ie.test) == "opts.show_contexts" else (ie.orelse, ie.body) if norm(ie.test) == "not opts.show_contexts" else (None, None)
+            if on_ is not None and norm(on_) == "self.contexts" and empty(off_):
+                ctx.R.ok("FMT-7", "contexts are rendered iff show_contexts (the loop runs over `self.contexts if opts.show_contexts else ()`)")
+                continue
+            ctx.R.undecided("FMT-7", f"Frame._format loops over `{norm(ie)[:60]}`")
+            continue
+        if isinstance(lp.iter, ast.Name) and lp.iter.id in derived and "self.contexts" not in norm(lp.iter):
+            # a local that is () / [] by default and self.contexts under show_contexts
+            asg = [a_ for a_ in walk_scope(fr) if isinstance(a_, (ast.Assign, ast.AnnAssign)) and norm(a_.targets[0] if isinstance(a_, ast.Assign) else a_.target) == lp.iter.id and a_.value is not None]
+            okd = bool(asg)
+            for a_ in asg:
+                gtxt = [norm(gx) for gx, pol in guards_of(mod, a_, fr) if pol]
+                if isinstance(a_.value, (ast.Tuple, ast.List)) and not a_.value.elts:
+                    continue
+                if norm(a_.value) == "self.contexts" and gtxt == ["opts.show_contexts"] and all(pol for _g, pol in guards_of(mod, a_, fr)):
+                    continue
+                okd = False
+            if okd and not gs:
+                ctx.R.ok("FMT-7", f"contexts are rendered iff show_contexts (`{lp.iter.id}` is empty unless show_contexts)")
+            else:
+                ctx.R.undecided("FMT-7", f"Frame._format loops over `{lp.iter.id}`, made from self.contexts in a form that is not recognised")
+            continue
         if "opts.show_contexts" in conj and norm(lp.iter) == "self.contexts":
             ctx.R.ok("FMT-7", "contexts are rendered iff show_contexts")
         elif "opts.show_contexts" in conj:
@@ -478,8 +505,12 @@ def fmt4(ctx: Ctx) -> None:
         raise AnalysisError(f"FMT-4: {q}: omission test not found")
     s = cand[0]
     atoms = ["self.contexts", "self.contexts[-1].is_exiting"]
+    skip_form = len(s.body) == 1 and isinstance(s.body[0], ast.Return) and not s.orelse and not any("start_code" in norm(x) for x in s.body)     # `if <exiting>: return lines` in front of the code line
     try:
-        ok, cex = equivalent(s.test, lambda e: not (e[atoms[0]] and e[atoms[1]]), atoms)
+        if skip_form:
+            ok, cex = equivalent(s.test, lambda e: e[atoms[0]] and e[atoms[1]], atoms)
+        else:
+            ok, cex = equivalent(s.test, lambda e: not (e[atoms[0]] and e[atoms[1]]), atoms)
     except AnalysisError as ex:
         ctx.R.undecided("FMT-4", f"{q}: omission test not understood: {ex}")
         return
@@ -543,6 +574,8 @@ def fmt6(ctx: Ctx) -> None:
     a3 = _fs_args(c)
     if a3[0] == "parent.filename" and a3[1] == "self.start_line or parent.lineno" and a3[2].startswith("parent.funcname"):
         ctx.R.ok("FMT-6", "a context's entry points at the with-line (start_line, else the frame's line) of the parent frame's file/function")
+    elif a3[0] == "parent.filename" and a3[2].startswith("parent.funcname") and a3[1] not in ("parent.lineno", "self.start_line", "self.lineno", "0", "None") and "start_line" in norm(cs) and "parent.lineno" in norm(cs):
+        ctx.R.undecided("FMT-6", f"a context's FrameSummary takes its line number from `{a3[1]}`, computed from start_line and parent.lineno in a form that is not recognised")
     else:
         ctx.R.fail("FMT-6", mod, c, "a context's FrameSummary must be (parent.filename, start_line or parent.lineno, parent.funcname + info)")
 
@@ -619,6 +652,9 @@ def fmt8(ctx: Ctx) -> None:
     elif r and all(x.value is not None and norm(x.value).startswith("traceback.StackSummary.from_list(") for x in r) and any(norm(x.value).startswith("traceback.StackSummary.from_list(self._frame_summaries(") for x in r):
         # an additional return that builds the list some other way (a fast path): which entries it holds is not decided here
         ctx.R.undecided("FMT-8", "as_stdlib_summary has a return that builds its StackSummary from something other than self._frame_summaries(...)")
+    elif any(isinstance(c_, ast.Call) and norm(c_.func) == "self._frame_summaries" for c_ in ast.walk(sm)) and r and all(x.value is not None for x in r) \
+            and not any(isinstance(c_, ast.Call) and norm(c_.func).startswith("traceback.") and norm(c_.func).split(".")[-1] in ("extract", "extract_stack", "walk_stack") for c_ in ast.walk(sm)):
+        ctx.R.undecided("FMT-8", "as_stdlib_summary consumes self._frame_summaries(...) but does not hand it to StackSummary.from_list directly")
     else:
         ctx.R.fail("FMT-8", mod, sm, "every return of as_stdlib_summary must be traceback.StackSummary.from_list(self._frame_summaries(...)): one entry per visible Frame of this Stack", construct="as_stdlib_summary returns")
     # who may produce summary entries: only the two FrameSummary(...) constructions; re-extracting from live
@@ -775,6 +811,19 @@ def _stmt(mod: Mod, n: ast.AST) -> ast.AST:
     return n
 
 
+def _explicit_lock_region(m: Mod, node: ast.AST) -> bool:
+    """`_trickery_lock.acquire()` directly followed by `try: ... finally: _trickery_lock.release()`: the try is the locked region"""
+    if not (isinstance(node, ast.Try) and any(isinstance(f_, ast.Expr) and norm(f_.value) == "_trickery_lock.release()" for f_ in node.finalbody)):
+        return False
+    par = m.parent_of(node)
+    for fld in ("body", "orelse", "finalbody"):
+        blk = getattr(par, fld, None)
+        if isinstance(blk, list) and node in blk:
+            i = blk.index(node)
+            return i > 0 and isinstance(blk[i - 1], ast.Expr) and norm(blk[i - 1].value) == "_trickery_lock.acquire()"
+    return False
+
+
 def mode_rules(ctx: Ctx) -> None:
     mod = ctx.P.mod("_lowlevel")
     sw = mod.toplevel_assign("_can_use_trickery")
@@ -819,7 +868,7 @@ def mode_rules(ctx: Ctx) -> None:
         for m, s in sts:
             if key not in allowed:
                 ctx.R.fail("MODE-1", m, s, f"_can_use_trickery is written in {key[1]}: only set_trickery_enabled and _check_trickery_available may write it")
-            elif not any(isinstance(a, ast.With) and any(norm(i.context_expr) == "_trickery_lock" for i in a.items) for a in m.ancestors(s)):
+            elif not any((isinstance(a, ast.With) and any(norm(i.context_expr) == "_trickery_lock" for i in a.items)) or _explicit_lock_region(m, a) for a in m.ancestors(s)):
                 ctx.R.fail("MODE-1", m, s, "the mode switch is written without holding _trickery_lock: a concurrent self-test can overwrite an explicit set_trickery_enabled()")
             else:
                 ctx.R.ok("MODE-1", f"{key[1]}: {norm(s)[:60]}", "under _trickery_lock")
@@ -855,8 +904,9 @@ def mode_rules(ctx: Ctx) -> None:
         ctx.R.ok("MODE-2", "an explicit setting is returned as is (fast path)")
     else:
         ctx.R.fail("MODE-2", mod, first, "_check_trickery_available must return the stored value whenever it is not None", construct="fast path")
-    w = [s for s in body if isinstance(s, ast.With)]
-    if len(w) == 1 and isinstance(w[0].body[0], ast.If) and norm(w[0].body[0].test) == "_can_use_trickery is not None" and isinstance(w[0].body[0].body[-1], ast.Return):
+    w = [s for s in body if isinstance(s, ast.With) or _explicit_lock_region(mod, s)]
+    wb0 = ([x_ for x_ in w[0].body if not isinstance(x_, (ast.Assert, ast.Pass))] or [None])[0] if len(w) == 1 else None
+    if len(w) == 1 and isinstance(wb0, ast.If) and norm(wb0.test) == "_can_use_trickery is not None" and isinstance(wb0.body[-1], ast.Return):
         ctx.R.ok("MODE-2", "the switch is re-tested after taking the lock (a concurrent set_trickery_enabled wins over auto-detection)")
     else:
         ctx.R.fail("MODE-2", mod, ck, "the switch must be re-tested after acquiring the lock", construct="re-test under lock")
